@@ -24,6 +24,10 @@ def check(run, prog, tier):
     # "not yet found" must be answered from the live store, never from a copy that a change of the store does not reset
     cache_coherence(run, prog, "N5", ['sd.ServiceDiscover', 'sd.TimedStore'])
     _task_typestate(run, prog)
+    from .derived import lifecycle_owner
+    from ..util import Scan as _Scan
+    with run.part("N7 generation state"):
+        lifecycle_owner(run, prog, _Scan(prog), "N7", DISC)
     run.explanation = (
         "send_find_services is a coroutine with await points; the guarantee 'only services not found *now*' is a "
         "freshness fact: on every enumerated path the list handed to send_sd was computed after the last await "
